@@ -102,7 +102,34 @@ def check_isa(ctx, g):
                       % (g["cfg"], [ISA_PATCHES[g["cfg"]][k][0] for k in picks], sorted(got), want), g)
 
 
+def kept_placeholder(rng):
+    """a branch target in front of data (or at the end of the section) is deleted whole: it has to stay as an empty
+    placeholder - and the comments that stood on its instructions have nothing left to stand on"""
+    import emodify
+
+    n = rng.randint(1, 3)
+    text = [
+        {"kind": "code", "func": 0, "entry": True, "insns": [["nop"]] * rng.randint(0, 2) + [[rng.choice(["jmp", "jcc"]), "A"]],
+         "syms": [{"name": "W", "at_end": False}]},
+        {"kind": "code", "func": 0, "insns": [["nop"]] * n + [["ret"]], "syms": [{"name": "A", "at_end": False}],
+         "comments": sorted([k, "a%d" % k] for k in set(rng.randrange(n + 1) for _ in range(rng.randint(1, 3))))},
+    ]
+    if text[0]["insns"][-1][0] == "jcc":
+        text.insert(1, {"kind": "code", "func": 0, "insns": [["ret"]], "syms": [{"name": "V", "at_end": False}]})
+    if rng.random() < 0.6:
+        text.append({"kind": "data", "bytes": [rng.randrange(256) for _ in range(rng.choice([2, 4]))], "syms": [{"name": "D", "at_end": False}],
+                     "comments": [[0, "d0"]]})
+    i = next(k for k, d in enumerate(text) if d["syms"][0]["name"] == "A")
+    edits = [{"op": "delete", "block": i, "off": 0, "len": emodify.block_size(text[i])}]
+    return {"isa": "X64", "ff": "ELF", "text": text, "externs": ["ext_a"], "edits": edits}
+
+
 def run(ctx):
+    camp = LE.Campaign(ctx, "C04")
+    for _ in range(ctx.budget(25, 500)):
+        ctx.count("kept-placeholder")
+        camp.add(kept_placeholder(ctx.rng))
+    camp.flush()
     LE.run(ctx, "C04", 1500, 40000)
     for _ in range(ctx.budget(120, 3000)):
         check_isa(ctx, gen_isa(ctx.rng))
